@@ -1,4 +1,4 @@
-import FxVerif.Proofs.C11Fresh
+import FxVerif.Proofs.C11Unslashed
 /-!
 # C11 — transferring delegation shares conserves shares, stake and reward entitlements
 
@@ -289,6 +289,25 @@ theorem exec_inv {c : FxVerif.Gen.C11.Cfg} (hg : good c = true) {s s' : State} {
     · split
       · exact hi w
       · exact hi w
+  | mature =>
+    simp only [State.exec] at h
+    cases h
+    refine ⟨fun w => ?_, rfl⟩
+    show SumInv s.nAcc (if (s.vs w).bonded then (s.vs w).endBlock s.height else ((s.vs w).endBlock s.height).matureVal)
+    have e : ∀ v : VS, SF v (v.endBlock s.height) := by
+      intro v
+      unfold VS.endBlock
+      dsimp only
+      split
+      · exact ⟨rfl, rfl, rfl⟩
+      · split <;> exact ⟨rfl, rfl, rfl⟩
+    have m : ∀ v : VS, SF v v.matureVal := by
+      intro v
+      unfold VS.matureVal
+      split <;> exact ⟨rfl, rfl, rfl⟩
+    split
+    · exact SumInv_of_SF (e _) (hi w)
+    · exact SumInv_of_SF ((e _).trans (m _)) (hi w)
   | jail v =>
     simp only [State.exec] at h
     split at h
@@ -407,7 +426,7 @@ theorem allowance_exact {s s' : State} {sp f t v x : Nat} (h : s.exec cfg (.tran
 abbrev reachVS (nAcc h0 : Nat) (vals : List (Nat × Nat)) (ops : List Op) (w : Nat) : VS :=
   ((init nAcc h0 vals).run cfg ops).vs w
 
-/-- **refcount_invariant.**  After *any* sequence of the ten operation kinds, for every validator and every period
+/-- **refcount_invariant.**  After *any* sequence of the thirteen operation kinds, for every validator and every period
 `p` the reference count of the historical-rewards record `p` is exactly the number of delegator starting infos that
 point at `p`, plus one if `p` is the period just before the validator's current period, plus the number of slash
 events recorded for `p` (the SDK's `ReferenceCountInvariant` is the sum of these equations over `p`).  Consequently
@@ -480,6 +499,67 @@ theorem still_withdrawable_partial (nAcc h0 : Nat) (vals : List (Nat × Nat)) (h
   · rcases unbond_full_total hi (h := h) hd hdel with hE | ⟨v', ret, c, hu, hn, _⟩
     · exact Or.inl hE
     · exact Or.inr ⟨v', ret, c, hu, hn⟩
+
+/-- **still_withdrawable_iff** — exactly when the exception of `still_withdrawable_partial` occurs.  After any history,
+for every delegator `d` of every validator and every block height `h`: let `stakeAfter` be the stake the SDK recomputes
+from the delegator's starting stake by one truncating multiplication with `1 − fraction` per slash event recorded
+since the starting info was written (`Model.C11.stakeAfter`, a function of the starting info and the slash events only —
+no reward ratio, no other delegator enters), and let `sanityFires` say that it exceeds the current token worth of the
+delegator's shares by more than 3·10⁻¹⁸ (and the starting info is not of this very block).  Then
+
+* if `sanityFires` is false the delegator CAN withdraw (its delegation stays) and CAN undelegate all of its shares (the
+  delegation is removed) — withdrawability proved under precisely the hypothesis that is needed;
+* if `sanityFires` is true both calls fail, with the SDK's stake sanity error.
+
+So the only obstacle to `still_withdrawable` is this arithmetic predicate of one starting info and the slash fractions
+after it; share transfers enter only through the starting infos they write, and for those the predicate is provably
+false until the next slash (`nothing_pending_after_transfer`). -/
+theorem still_withdrawable_iff (nAcc h0 : Nat) (vals : List (Nat × Nat)) (hv : vals.length ≤ nAcc) (ops : List Op)
+    {w : Nat} (hw : w < vals.length) (h d sh : Nat) (hdel : (reachVS nAcc h0 vals ops w).del d = some sh) :
+    ((reachVS nAcc h0 vals ops w).sanityFires h d = false →
+      (∃ v' c, (reachVS nAcc h0 vals ops w).withdrawMsg h d = .ok (v', c) ∧ v'.del d = some sh) ∧
+      (∃ v' ret c, (reachVS nAcc h0 vals ops w).unbond h d sh = .ok (v', ret, c) ∧ v'.del d = none)) ∧
+    ((reachVS nAcc h0 vals ops w).sanityFires h d = true →
+      (reachVS nAcc h0 vals ops w).withdrawMsg h d = .error .stakeSanity ∧
+      (reachVS nAcc h0 vals ops w).unbond h d sh = .error .stakeSanity) := by
+  have hi : VInv nAcc (reachVS nAcc h0 vals ops w) := reach_SInv cfg_good nAcc h0 vals hv ops hw
+  obtain ⟨p1, p2⟩ := still_withdrawable_partial nAcc h0 vals hv ops hw h d sh hdel
+  generalize reachVS nAcc h0 vals ops w = v at hi hdel p1 p2 ⊢
+  obtain ⟨si, hs⟩ := Dom_sinfo_some hi.dom hdel
+  have key := withdrawRewards_sanity hi.ri (h := h) hdel hs
+  constructor
+  · intro hf
+    have hne : v.withdrawRewards h d ≠ .error .stakeSanity := by
+      intro hc
+      rw [key.mp hc] at hf
+      cases hf
+    constructor
+    · rcases p1 with hE | hok
+      · exact absurd (withdrawMsg_sanity_imp hE) hne
+      · exact hok
+    · rcases p2 with hE | hok
+      · exact absurd (unbond_sanity_imp hdel hE) hne
+      · exact hok
+  · intro ht
+    have hwr := key.mpr ht
+    exact ⟨withdrawMsg_sanity_of hwr, unbond_sanity_of hdel hwr⟩
+
+/-- **still_withdrawable_unslashed** — `still_withdrawable` at full strength for every validator that the history never
+slashes (whatever happens to the other validators): after any sequence of delegate / undelegate / redelegate / withdraw /
+approve / transfer / transferFrom / reward allocation / block / jail / unjail operations, and slashes of *other*
+validators, every delegator of the validator can withdraw its rewards (the delegation stays) and undelegate all of its
+shares (the delegation is removed), at any height.  The proof keeps the validator at exactly one share per token, every
+delegation a whole number of shares and every starting stake equal to the delegator's shares — through the
+hand-written starting infos of `handlerTransferShares` too — so the SDK's sanity check compares a number with itself. -/
+theorem still_withdrawable_unslashed (nAcc h0 : Nat) (vals : List (Nat × Nat)) (hv : vals.length ≤ nAcc) (ops : List Op)
+    {w : Nat} (hw : w < vals.length) (hns : ∀ o, o ∈ ops → ∀ p f, o ≠ .slash w p f)
+    (h d sh : Nat) (hdel : (reachVS nAcc h0 vals ops w).del d = some sh) :
+    (∃ v' c, (reachVS nAcc h0 vals ops w).withdrawMsg h d = .ok (v', c) ∧ v'.del d = some sh) ∧
+    (∃ v' ret c, (reachVS nAcc h0 vals ops w).unbond h d sh = .ok (v', ret, c) ∧ v'.del d = none) := by
+  have hi : VInv nAcc (reachVS nAcc h0 vals ops w) := reach_SInv cfg_good nAcc h0 vals hv ops hw
+  have hn : NS (reachVS nAcc h0 vals ops w) :=
+    run_NS cfg_good ops (init nAcc h0 vals) (init_SInv hv) (init_NS nAcc h0 vals w) hns
+  exact (still_withdrawable_iff nAcc h0 vals hv ops hw h d sh hdel).1 (NS_not_sanity hi.sum hn h d)
 
 /-- **the exception in `still_withdrawable_partial` is real.**  `still_withdrawable` at full strength is false of the SDK's
 18-decimal arithmetic, without any share transfer: slash a validator of 10^20 tokens by 100 base units (fraction
@@ -623,6 +703,100 @@ theorem transfer_never_breaks_bookkeeping (nAcc h0 : Nat) (vals : List (Nat × N
             simp [g12, hlt]
           · exact transferOp_refusal (s := { s with allow := _ }) (by exact hi) h
 
+/-! ### the bank side: staking pools, distribution module account, accounts -/
+
+/-- **pool_invariant** — the SDK staking `ModuleAccountInvariants`, as a theorem: after *any* sequence of the thirteen
+operation kinds from genesis the bonded pool holds exactly the tokens of the Bonded validators, and the not-bonded
+pool holds exactly the tokens of the other validators plus the balances of all unbonding-delegation entries.  (A share
+transfer moves no tokens: `transfer_leaves_chain_unchanged`; delegate / undelegate / redelegate move them between the
+delegator, the two pools and the entries according to the validators' status; slashing burns from the pool of the
+validator's status; the validator-set update at the end of a block moves a validator's whole stake.) -/
+theorem pool_invariant (nAcc h0 : Nat) (vals : List (Nat × Nat)) (ops : List Op) :
+    ((init nAcc h0 vals).run cfg ops).bondedPool =
+      sumTo ((init nAcc h0 vals).run cfg ops).nVal (fun w =>
+        if (((init nAcc h0 vals).run cfg ops).vs w).bonded then (((init nAcc h0 vals).run cfg ops).vs w).tokens else 0) ∧
+    ((init nAcc h0 vals).run cfg ops).notBondedPool =
+      sumTo ((init nAcc h0 vals).run cfg ops).nVal (fun w =>
+        if (((init nAcc h0 vals).run cfg ops).vs w).bonded then 0 else (((init nAcc h0 vals).run cfg ops).vs w).tokens) +
+      ubdTotal ((init nAcc h0 vals).run cfg ops).ubd := by
+  have hi := run_BInv cfg_good ops _ (init_BInv nAcc h0 vals)
+  exact ⟨hi.bonded, hi.notBonded⟩
+
+/-- **distribution_accounting** — after any history: for every validator the rewards of the open period are part of
+its outstanding rewards, and outstanding + paid (whole coins) + truncation remainders handed to the community pool =
+everything ever allocated to it (nothing is lost, nothing is paid twice, whatever transfers happened in between);
+summed over the validators, the allocations are exactly the coins the distribution module account received, the
+payments are exactly the coins it paid out, and those are exactly the coins the accounts received.  Consequently the
+module account never pays more than it received and its balance is exactly Σ outstanding + the community-pool
+remainders — the SDK distribution `ModuleAccountInvariant` (and `NonNegativeOutstandingInvariant`) as a theorem. -/
+theorem distribution_accounting (nAcc h0 : Nat) (vals : List (Nat × Nat)) (ops : List Op) :
+    (∀ w, (((init nAcc h0 vals).run cfg ops).vs w).cur ≤ (((init nAcc h0 vals).run cfg ops).vs w).outstanding ∧
+      (((init nAcc h0 vals).run cfg ops).vs w).outstanding + (((init nAcc h0 vals).run cfg ops).vs w).paid * ONE +
+        (((init nAcc h0 vals).run cfg ops).vs w).dust = (((init nAcc h0 vals).run cfg ops).vs w).allocated) ∧
+    sumTo ((init nAcc h0 vals).run cfg ops).nVal (fun w => (((init nAcc h0 vals).run cfg ops).vs w).allocated) =
+      ((init nAcc h0 vals).run cfg ops).distrIn * ONE ∧
+    sumTo ((init nAcc h0 vals).run cfg ops).nVal (fun w => (((init nAcc h0 vals).run cfg ops).vs w).paid) =
+      ((init nAcc h0 vals).run cfg ops).distrOut ∧
+    sumTo ((init nAcc h0 vals).run cfg ops).nAcc ((init nAcc h0 vals).run cfg ops).gain =
+      ((init nAcc h0 vals).run cfg ops).distrOut ∧
+    ((init nAcc h0 vals).run cfg ops).distrOut ≤ ((init nAcc h0 vals).run cfg ops).distrIn ∧
+    (((init nAcc h0 vals).run cfg ops).distrIn - ((init nAcc h0 vals).run cfg ops).distrOut) * ONE =
+      sumTo ((init nAcc h0 vals).run cfg ops).nVal (fun w => (((init nAcc h0 vals).run cfg ops).vs w).outstanding) +
+      sumTo ((init nAcc h0 vals).run cfg ops).nVal (fun w => (((init nAcc h0 vals).run cfg ops).vs w).dust) := by
+  have hi := run_BInv cfg_good ops _ (init_BInv nAcc h0 vals)
+  generalize (init nAcc h0 vals).run cfg ops = s at hi ⊢
+  have key : sumTo s.nVal (fun w => (s.vs w).allocated) =
+      sumTo s.nVal (fun w => (s.vs w).outstanding) + sumTo s.nVal (fun w => (s.vs w).paid) * ONE +
+      sumTo s.nVal (fun w => (s.vs w).dust) := by
+    rw [← sumTo_mul_right, ← sumTo_add, ← sumTo_add]
+    exact sumTo_congr (fun w _ => ((hi.acct w).2).symm)
+  have h3 := hi.allocated
+  have h4 := hi.paid
+  rw [h3, h4] at key
+  have hle : s.distrOut ≤ s.distrIn := by
+    have : s.distrOut * ONE ≤ s.distrIn * ONE := by omega
+    exact Nat.le_of_mul_le_mul_right this (by decide)
+  refine ⟨hi.acct, h3, h4, hi.gain, hle, ?_⟩
+  rw [Nat.sub_mul]
+  omega
+
+/-- what a share transfer leaves alone at the level of the chain -/
+def ChainFrame (s s' : State) (f t v : Nat) : Prop :=
+  s'.bondedPool = s.bondedPool ∧ s'.notBondedPool = s.notBondedPool ∧ s'.ubd = s.ubd ∧ s'.redel = s.redel ∧
+  s'.distrIn = s.distrIn ∧ s'.burned = s.burned ∧ s'.height = s.height ∧ s'.spent = s.spent ∧
+  (∀ w, w ≠ v → s'.vs w = s.vs w) ∧
+  (s'.vs v).bonded = (s.vs v).bonded ∧ (s'.vs v).jailed = (s.vs v).jailed ∧ (s'.vs v).tokens = (s.vs v).tokens ∧
+  ∃ rf rt, s'.distrOut = s.distrOut + rf + rt ∧ (s'.vs v).paid = (s.vs v).paid + (rf + rt) ∧
+    s'.gain = setAt (setAt s.gain f (s.gain f + rf)) t (setAt s.gain f (s.gain f + rf) t + rt)
+
+/-- **transfer_leaves_chain_unchanged.**  A successful `transferShares` / `transferFromShares` at validator `v` changes
+neither staking pool, no unbonding-delegation or redelegation record, no other validator's record (in particular no
+delegation, starting info or reward of `from` / `to` at any *other* validator), not the validator's status or tokens, no
+coins bonded by anyone, and burns and allocates nothing; the distribution module account pays out exactly the two
+reward amounts `rf` and `rt`, which are credited to `from` and `to` and to nobody else, and are exactly what is added to
+the validator's `paid` total.  (For `transferFromShares` the only further change is the one allowance of
+`allowance_exact`.) -/
+theorem transfer_leaves_chain_unchanged {s s' : State} {sp f t v x : Nat} :
+    (s.exec cfg (.transfer f t v x) = .ok s' → ChainFrame s s' f t v ∧ s'.allow = s.allow) ∧
+    (s.exec cfg (.transferFrom sp f t v x) = .ok s' → ChainFrame s s' f t v) := by
+  constructor
+  · intro h
+    simp only [State.exec] at h
+    obtain ⟨a1, a2, a3, a4, a5, a6, a7, a8, a9, a10, a11, a12, a13, rf, rt, b1, b2, b3⟩ := transferOp_frame cfg_good h
+    exact ⟨⟨a1, a2, a3, a4, a5, a6, a7, a8, a10, a11, a12, a13, rf, rt, b1, b3, b2⟩, a9⟩
+  · intro h
+    simp only [State.exec] at h
+    split at h
+    · cases h
+    · split at h
+      · cases h
+      · split at h
+        · cases h
+        · split at h
+          · cases h
+          · obtain ⟨a1, a2, a3, a4, a5, a6, a7, a8, a9, a10, a11, a12, a13, rf, rt, b1, b2, b3⟩ := transferOp_frame cfg_good h
+            exact ⟨a1, a2, a3, a4, a5, a6, a7, a8, a10, a11, a12, a13, rf, rt, b1, b3, b2⟩
+
 /-! ### non-vacuity: the hypotheses are satisfiable on concrete, non-trivial histories -/
 
 /-- a history with a new recipient, an existing recipient, a full transfer, a slash and a self-transfer -/
@@ -654,11 +828,54 @@ example : isOk (((init 4 1 [(1000, 0)]).run cfg [.delegate 1 0 500, .approve 1 3
 example : isOk ((demo.vs 0).withdrawMsg (demo.height + 3) 1) = true ∧ isOk ((demo.vs 0).unbond (demo.height + 3) 1 (250 * ONE)) = true ∧
     isOk ((demo.vs 0).withdrawMsg (demo.height + 3) 2) = true ∧ isOk ((demo.vs 0).unbond (demo.height + 3) 2 (250 * ONE)) = true := by
   decide
+-- still_withdrawable_iff: both cases occur — on the demo history (one slash of 10⁻¹⁸·… between the starting infos and now) the
+-- predicate is false for both parties; on the history of `stake_sanity_reachable` it is true for the operator
+example : (demo.vs 0).sanityFires (demo.height + 3) 1 = false ∧ (demo.vs 0).sanityFires (demo.height + 3) 2 = false ∧
+    (demo.vs 0).slashes.length = 1 := by decide
+example : (reachVS 2 1 [(100000000000000000000, 0)] [.slash 0 1 1, .delegate 1 0 1, .slash 0 1 1] 0).sanityFires 3 0 = true := by
+  decide
+-- still_withdrawable_unslashed: a history with transfers, an undelegation and a redelegation that slashes only the OTHER
+-- validator meets the hypothesis, and validator 0 has three delegators
+def unslashedOps : List Op :=
+  [.delegate 2 0 700, .delegate 3 1 300, .alloc 0 50, .block, .transfer 2 3 0 200, .undelegate 2 0 100,
+   .redelegate 3 1 0 50, .slash 1 1 100000000000000000, .transfer 3 2 0 30]
+example : ∀ o, o ∈ unslashedOps → ∀ p f, o ≠ .slash 0 p f := by
+  intro o ho p f hc
+  subst hc
+  simp [unslashedOps] at ho
+example :
+    ((reachVS 4 1 [(200000000000000000000, 0), (200000000000000000000, 0)] unslashedOps 0).del 2).isSome ∧
+    ((reachVS 4 1 [(200000000000000000000, 0), (200000000000000000000, 0)] unslashedOps 0).del 3).isSome ∧
+    (reachVS 4 1 [(200000000000000000000, 0), (200000000000000000000, 0)] unslashedOps 1).slashes.length = 1 := by decide
 -- refcount_invariant: the demo history has a record referenced twice (current period + a starting info), one
 -- referenced by the slash event, and three starting infos (operator, sender, recipient)
 example : (demo.vs 0).refs ((demo.vs 0).period - 1) = 2 ∧ slashCnt (demo.vs 0) 5 = 1 ∧ (demo.vs 0).refs 5 = 1 ∧
     (List.range (demo.vs 0).period).map (fun p => infoCnt 4 (demo.vs 0) p) = [0, 1, 0, 0, 0, 0, 0, 0, 0, 1, 1] := by
   decide
+-- pool_invariant / distribution_accounting on the demo history: the validator (1000 + 500 tokens, below one unit of
+-- consensus power) left the active set at the first block, so its tokens sit in the not-bonded pool; 90 coins were
+-- allocated, 26 paid out
+example : demo.bondedPool = 0 ∧ demo.notBondedPool = 1400 ∧ demo.burned = 100 ∧ demo.distrIn = 90 ∧ demo.distrOut = 26 ∧
+    (demo.vs 0).bonded = false := by decide
+-- both pools in use, an unbonding entry, a redelegation from a Bonded to a not-Bonded validator
+example :
+    let s := (init 4 1 [(200000000000000000000, 0), (5000, 0)]).run cfg
+      [.delegate 2 0 700, .delegate 3 1 300, .block, .undelegate 2 0 100, .redelegate 2 0 1 50, .slash 0 1 100000000000000000]
+    s.bondedPool = 190000000000000000550 ∧ s.notBondedPool = 5450 ∧ ubdTotal s.ubd = 100 ∧ (s.vs 0).bonded = true ∧
+    (s.vs 1).bonded = false ∧ s.burned = 10000000000000000000 := by decide
+-- a transfer that pays both parties (hypothesis of transfer_leaves_chain_unchanged)
+example : isOk (((init 4 1 [(1000, 0)]).run cfg [.delegate 1 0 500, .delegate 2 0 300, .alloc 0 77, .block]).exec cfg
+    (.transfer 1 2 0 200)) = true := by decide
+-- maturity: while account 2 has an incoming redelegation at validator 1 it may not transfer there; after the unbonding
+-- period the redelegation has completed (the transfer goes through), the unbonding entry of 50 was paid back out of the
+-- not-bonded pool, and the jailed validator 0 is Unbonded
+example :
+    let s := (init 4 1 [(200000000000000000000, 0), (200000000000000000000, 0)]).run cfg
+      [.delegate 2 0 700, .redelegate 2 0 1 100, .undelegate 2 0 50, .jail 0, .block]
+    isOk (s.exec cfg (.transfer 2 3 1 10)) = false ∧ s.notBondedPool = 200000000000000000600 ∧
+    isOk ((s.run cfg [.mature]).exec cfg (.transfer 2 3 1 10)) = true ∧ (s.run cfg [.mature]).returned 2 = 50 ∧
+    (s.run cfg [.mature]).ubd = [] ∧ ((s.run cfg [.mature]).vs 0).unbonded = true ∧
+    (s.run cfg [.mature]).notBondedPool = 200000000000000000550 := by decide
 -- every status: a validator that was jailed and left the active set (Unbonding) still pays the rewards accrued while it
 -- was bonded when shares are transferred (all the transfer theorems above quantify over histories with jail / unjail
 -- operations and over the validator-set update at the end of every block)
